@@ -21,13 +21,26 @@ fn main() {
         std::env::set_var("RUST_LIB_BACKTRACE", "0");
     }
     exec::install();
+    let args: Vec<String> = std::env::args().collect();
+    if args.get(1).map(String::as_str) == Some("replay")
+        && std::env::var_os("WIRE_SIM_SERVE_ALL").is_some()
+    {
+        alloc::SERVE_ALL.store(true, std::sync::atomic::Ordering::SeqCst);
+    }
     if std::env::args().nth(1).as_deref() == Some("list") {
         // list the honest encodings and entry points of the default configuration
         let scratch = sim_core::scratch::Scratch::new("wire");
         unsafe { std::env::set_var("TMPDIR", scratch.path()) };
         let set = honest::HonestSet::build(&honest::HonestCfg::default_small());
         for e in &set.encodings {
-            println!("{:45} {:32} len={:6} hot={:4} statement={}", e.ty, e.form, e.bytes.len(), e.hot.len(), e.in_statement);
+            println!(
+                "{:45} {:32} len={:6} hot={:4} statement={}",
+                e.ty,
+                e.form,
+                e.bytes.len(),
+                e.hot.len(),
+                e.in_statement
+            );
             for en in &e.entries {
                 println!("      {:75} {:?}", en.name, en.route);
             }
